@@ -4,6 +4,10 @@ Correspondence: add_missing_elements_in_network + add_missing_fiber_attributes (
 Gnpy.Chain.addMissingLine / addConn / addPadding per chain; calculate_new_length vs Gnpy.Chain.calcNewLength.
 Monitor: the statement on the designed DiGraph (own graph walk, own arithmetic).
 """
+import os
+for _v in ('OMP_NUM_THREADS', 'OPENBLAS_NUM_THREADS', 'MKL_NUM_THREADS'):
+    os.environ.setdefault(_v, '1')     # one BLAS thread per worker process: the checks run in a process pool
+
 import copy
 import math
 
